@@ -1,4 +1,5 @@
 import LfsModel.Crash
+import LfsModel.CrashIno
 /-
 Executable replay of an observed file-system operation list in the storage model of Crash.lean
 (used by the C09 correspondence: the traced operations of a real run must RUN under `Crash.step`,
@@ -45,5 +46,44 @@ def replay : Fs → List Word → Nat → Option Nat
       let fs2 : Fs := if isLink then fs1 else fs1
       (match step H fs2 (if isLink then .link src dst else .rename src dst) with
         | some fs' => replay fs' ws (i + 1) | none => some i)
+
+/-! ### the same replay in the model with hard links (CrashIno.lean) -/
+
+inductive WordI
+  | w (x : Word)
+  | write (area name : String)      -- an EXISTING file is opened for writing (resume: truncate and/or append)
+
+/-- index of the first operation the inode model refuses, if any -/
+def replayI : CrashI.Fs → List WordI → Nat → Option Nat
+  | _, [], _ => none
+  | fs, x :: ws, i =>
+    match x with
+    | .write a n => (match CrashI.step H fs (.truncate (pathOf a n)) with
+        | some fs' => replayI fs' ws (i + 1) | none => some i)
+    | .w (.have_ a n sha) =>
+      let fs1 : CrashI.Fs := { (CrashI.setName (CrashI.setData fs fs.next (contentOf sha)) (pathOf a n) fs.next) with next := fs.next + 1 }
+      replayI fs1 ws (i + 1)
+    | .w (.create a n) => (match CrashI.step H fs (.create (pathOf a n)) with
+        | some fs' => replayI fs' ws (i + 1) | none => some i)
+    | .w (.unlink a n) => (match CrashI.step H fs (.unlink (pathOf a n)) with
+        | some fs' => replayI fs' ws (i + 1) | none => some i)
+    | .w (.move isLink sa sn da dn sha) =>
+      let src := pathOf sa sn
+      let dst := pathOf da dn
+      -- the write bursts are not traced: a temp/part source has received its content by now — through an
+      -- inode that no object name may share
+      let fs1? : Option CrashI.Fs :=
+        if isObj src then some fs else
+        match CrashI.lookup fs src with
+        | none => some { (CrashI.setName (CrashI.setData fs fs.next (contentOf sha)) src fs.next) with next := fs.next + 1 }
+        | some j =>
+          if fs.data j == contentOf sha then some fs
+          else if CrashI.aliasedToObj fs j then none
+          else some (CrashI.setData fs j (contentOf sha))
+      match fs1? with
+      | none => some i
+      | some fs1 =>
+        (match CrashI.step H fs1 (if isLink then .link src dst else .rename src dst) with
+          | some fs' => replayI fs' ws (i + 1) | none => some i)
 
 end CrashExec
